@@ -108,19 +108,21 @@ def resubmit_jobs(output, failed, missing, successful, submission_groups_file, v
                 sys.exit(1)
         logger.info("Updated submitter parameters from %s", submission_groups_file)
 
-    jobs_to_resubmit = _get_jobs_to_resubmit(cluster, output, failed, missing, successful)
-    updated_blocking_jobs_by_name = _update_with_blocking_jobs(jobs_to_resubmit, output)
-    _reset_results(output, jobs_to_resubmit)
-    cluster.prepare_for_resubmission(jobs_to_resubmit, updated_blocking_jobs_by_name)
-    events_dir = Path(output) / EVENTS_DIR
-    for path in list(events_dir.iterdir()):
-        # These files will get regenerated. It would be better to only generate events for new
-        # compute node batches, but the code in events.py doesn't support that.
-        # TODO
-        path.unlink()
-
     ret = 1
     try:
+        jobs_to_resubmit = _get_jobs_to_resubmit(cluster, output, failed, missing, successful)
+        updated_blocking_jobs_by_name = _update_with_blocking_jobs(jobs_to_resubmit, output)
+        _reset_results(output, jobs_to_resubmit)
+        cluster.prepare_for_resubmission(jobs_to_resubmit, updated_blocking_jobs_by_name)
+        events_dir = Path(output) / EVENTS_DIR
+        # The directory only exists if reports were generated.
+        if events_dir.exists():
+            for path in list(events_dir.iterdir()):
+                # These files will get regenerated. It would be better to only generate events for
+                # new compute node batches, but the code in events.py doesn't support that.
+                # TODO
+                path.unlink()
+
         mgr = JobSubmitter.load(output)
         status = mgr.submit_jobs(cluster)
         if status == Status.IN_PROGRESS:
